@@ -149,7 +149,7 @@ def run_scenario(job, ks):
             POL = z3.Function("POL", *([z3.RealSort()] * S), z3.IntSort())
             pol_calls = [0]
 
-            def fake_extract():
+            def fake_extract(*a, **k):
                 pol_calls[0] += 1
                 v = [zx.Z(zx.to_real(x)) for x in val_of(solver.values)]
                 arr = np.empty((S, 1), dtype=object)
@@ -190,7 +190,7 @@ def run_scenario(job, ks):
             if o.exc is not None:
                 from ..harness import exc_origin
                 if exc_origin(o.exc) == "harness":
-                    ob.fail_harness(f"harness raised: {o.exc!r}")
+                    results.append(dict(harness_exc=repr(o.exc), pc=o.pc))
                     continue
                 results.append(dict(exc=o.exc, pc=o.pc))
             else:
@@ -289,6 +289,12 @@ def run_job(job):
     if job["kind"] == "compose":
         ref_paths, _ = run_scenario(job, [sum(ks)])
         ob.extra["paths"] += len(ref_paths)
+    for p in list(paths) + (list(ref_paths) if job["kind"] == "compose" else []):
+        if "harness_exc" in p:
+            ob.fail_harness(f"harness raised: {p['harness_exc']}")
+    paths = [p for p in paths if "harness_exc" not in p]
+    if job["kind"] == "compose":
+        ref_paths = [p for p in ref_paths if "harness_exc" not in p]
     for pi_, p in enumerate(paths):
         if "exc" in p:
             ob.prove(f"no-exception[path{pi_}]", p["pc"], False, cex=lambda m: dict(kind="exc", exc=repr(p["exc"]),
@@ -576,7 +582,7 @@ def sequence_replay(job, g, e, V0, outs):
         calls[0] += 1
         return jnp.asarray(outs[min(calls[0] - 1, len(outs) - 1)])
     s._update_values = fake
-    s._extract_policy = lambda: jnp.zeros((2, 1), dtype=jnp.int32)
+    s._extract_policy = lambda *a, **k: jnp.zeros((2, 1), dtype=jnp.int32)
     try:
         for k in job["ks"]:
             s.solve(k)
